@@ -46,6 +46,11 @@ def check_partition(du, acc, size, cap, n, extra, zero_rich, rng):
         return
     acc.count("partition.cases")
     want_blocks = math.ceil(n / cap)
+    keep = list(ids)
+    list(du.partition_identifiers_to_blocks(ids, cap, size, block_size_bytes=block_size) if extra
+         else du.partition_identifiers_to_blocks(ids, cap, size))
+    if ids != keep:
+        acc.violation(sigbase + ":input-mutated", "partition changed the caller's identifier list", case)
     if len(blocks) != want_blocks:
         acc.violation(sigbase + ":block-count", f"{len(blocks)} blocks, expected {want_blocks}", case)
     if any(len(b) != block_size for b in blocks):
